@@ -619,7 +619,30 @@ def sp_seq_contains(ex, e, st):
     return Val(mk_b(z3.Contains(z3.Extract(a, lo, z3.Length(a) - lo), z3.Unit(x.t))), 'bool')
 
 
-SPEC_FUNCS.update({'nobreaks': sp_nobreaks, 'uniprintable': sp_uniprintable, 'printable': sp_printable, 'sortable_keys': sp_sortable_keys, 'prefix_of': sp_prefix_of, 'seq_contains': sp_seq_contains})
+HASCHUNK = z3.Function('seq_has_chunk', SeqV, z3.IntSort(), V, z3.BoolSort())   # x occurs in s at an index >= lo (introduced only through its two lemmas)
+
+
+def sp_has_chunk(ex, e, st):
+    a = ex.seq_of(st, ex.ev(e.args[0], st))
+    lo = iv(ex.ev(e.args[1], st).t)
+    x = ex.ev(e.args[2], st)
+    return Val(mk_b(HASCHUNK(a, lo, x.t)), 'bool')
+
+
+def has_chunk_lemmas(cx=None):
+    """the two facts about `x occurs in s[lo:]` that the contracts use: the last element occurs; occurrence survives appending"""
+    s_, t_ = z3.Const('hc_s', SeqV), z3.Const('hc_t', SeqV)
+    lo, x = z3.Int('hc_lo'), z3.Const('hc_x', V)
+    n = z3.Length(s_)
+    last = z3.ForAll([s_, lo, x], z3.Implies(z3.And(0 <= lo, lo < n, s_[n - 1] == x), HASCHUNK(s_, lo, x)), patterns=[HASCHUNK(s_, lo, x)])
+    pre = z3.And(z3.Length(s_) <= z3.Length(t_), t_ == z3.Concat(s_, z3.Extract(t_, z3.Length(s_), z3.Length(t_) - z3.Length(s_))))
+    mono = z3.ForAll([s_, t_, lo, x], z3.Implies(z3.And(HASCHUNK(s_, lo, x), pre), HASCHUNK(t_, lo, x)), patterns=[z3.MultiPattern(HASCHUNK(s_, lo, x), HASCHUNK(t_, lo, x))])
+    return z3.And(last, mono)
+
+
+has_chunk_lemmas.__name__ = 'lemmas (valid for "x occurs in s[lo:]", not machine-checked): the last element occurs; occurrence survives appending'
+
+SPEC_FUNCS.update({'has_chunk': sp_has_chunk, 'nobreaks': sp_nobreaks, 'uniprintable': sp_uniprintable, 'printable': sp_printable, 'sortable_keys': sp_sortable_keys, 'prefix_of': sp_prefix_of, 'seq_contains': sp_seq_contains})
 
 
 def b_next(ex, e, st):
